@@ -170,15 +170,14 @@ pub(crate) fn fingerprint(d: &v::VsockDriver) -> String {
 /// One real connection with its application halves and counting wakers; executes the op tokens
 /// of the `vsock` line protocol (shared by comp_vsock.rs and comp_pair.rs).
 pub(crate) struct Endpoint {
-    pub d: v::VsockDriver,
+    /// None after the connection future was dropped (op `X`: cancellation)
+    pub d: Option<v::VsockDriver>,
     rh: Option<UtpStreamReadHalf>,
     wh: Option<UtpStreamWriteHalf>,
     dc: std::sync::Arc<crate::util::CountingWaker>,
     dw: std::task::Waker,
-    rc: std::sync::Arc<crate::util::CountingWaker>,
-    rw: std::task::Waker,
-    wc: std::sync::Arc<crate::util::CountingWaker>,
-    ww: std::task::Waker,
+    rset: crate::util::WakerSet,
+    wset: crate::util::WakerSet,
     pub finished: bool,
 }
 
@@ -258,18 +257,14 @@ impl Endpoint {
         let mut d = v::VsockDriver::new(opts, ipv4, kind).map_err(|_| ())?;
         let (rh, wh) = d.stream.take().unwrap().split();
         let (dc, dw) = counting_waker();
-        let (rc, rw) = counting_waker();
-        let (wc, ww) = counting_waker();
         Ok(Endpoint {
-            d,
+            d: Some(d),
             rh: Some(rh),
             wh: Some(wh),
             dc,
             dw,
-            rc,
-            rw,
-            wc,
-            ww,
+            rset: crate::util::WakerSet::new(),
+            wset: crate::util::WakerSet::new(),
             finished: false,
         })
     }
@@ -278,10 +273,32 @@ impl Endpoint {
     /// returned (vsock component) instead of their hash (pair component).
     pub fn op(&mut self, tok: &str, full_bytes: bool) -> OpResult {
         let mut dcx = Context::from_waker(&self.dw);
-        let mut rcx = Context::from_waker(&self.rw);
-        let mut wcx = Context::from_waker(&self.ww);
-        let d = &mut self.d;
         let (c, rest) = tok.split_at(1);
+        // every application call is made under a fresh waker (see util::WakerSet)
+        let rw = if c == "R" { Some(self.rset.fresh()) } else { None };
+        let ww = if matches!(c, "W" | "F" | "H") { Some(self.wset.fresh()) } else { None };
+        let noop = std::task::Waker::from(std::sync::Arc::new(crate::util::CountingWaker(
+            std::sync::atomic::AtomicUsize::new(0),
+        )));
+        let mut rcx = Context::from_waker(rw.as_ref().unwrap_or(&noop));
+        let mut wcx = Context::from_waker(ww.as_ref().unwrap_or(&noop));
+        if c == "X" {
+            // the connection future is dropped without having returned (cancellation): Drop for VirtualSocket
+            self.d = None;
+            return OpResult { res: "X".into(), is_poll: false, read: Vec::new(), wrote: 0 };
+        }
+        if self.d.is_none() && matches!(c, "T" | "L" | "P" | "M" | "Z") {
+            return OpResult { res: "BADOP".into(), is_poll: false, read: Vec::new(), wrote: 0 };
+        }
+        let mut no_driver: Option<v::VsockDriver> = None;
+        let d: &mut v::VsockDriver = match self.d.as_mut() {
+            Some(d) => d,
+            None => {
+                // application ops never touch the driver; keep the borrow checker happy
+                let _ = &mut no_driver;
+                return self.app_op_after_drop(c, rest, full_bytes);
+            }
+        };
         let mut is_poll = false;
         let mut read: Vec<u8> = Vec::new();
         let mut wrote = 0usize;
@@ -419,6 +436,11 @@ impl Endpoint {
             }
             _ => "BADOP".into(),
         };
+        match res.as_str() {
+            "RPEND" if rest != "0" => self.rset.returned_pending(),
+            "WP" | "UPEND" => self.wset.returned_pending(),
+            _ => {}
+        }
         OpResult {
             res,
             is_poll,
@@ -427,20 +449,112 @@ impl Endpoint {
         }
     }
 
+    pub fn drv(&self) -> &v::VsockDriver {
+        self.d.as_ref().expect("connection dropped")
+    }
+
+    /// Application ops once the connection object is gone: only the halves are left.
+    fn app_op_after_drop(&mut self, c: &str, rest: &str, full_bytes: bool) -> OpResult {
+        let rw = self.rset.fresh();
+        let ww = self.wset.fresh();
+        let mut rcx = Context::from_waker(&rw);
+        let mut wcx = Context::from_waker(&ww);
+        let mut read: Vec<u8> = Vec::new();
+        let mut wrote = 0usize;
+        let res: String = match c {
+            "W" => {
+                let f: Vec<usize> = rest.split(',').map(|x| x.parse().unwrap()).collect();
+                let buf = pattern(f[1], f[0]);
+                match self.wh.as_mut() {
+                    None => "-".into(),
+                    Some(h) => match Pin::new(h).poll_write(&mut wcx, &buf) {
+                        Poll::Ready(Ok(n)) => {
+                            wrote = n;
+                            format!("W{n}")
+                        }
+                        Poll::Pending => "WP".into(),
+                        Poll::Ready(Err(e)) => match e.to_string().as_str() {
+                            "socket closed" => "WEC".into(),
+                            "no writing after shutdown" => "WES".into(),
+                            _ => "WED".into(),
+                        },
+                    },
+                }
+            }
+            "F" | "H" => match self.wh.as_mut() {
+                None => "-".into(),
+                Some(h) => {
+                    let r = if c == "F" {
+                        Pin::new(h).poll_flush(&mut wcx)
+                    } else {
+                        Pin::new(h).poll_shutdown(&mut wcx)
+                    };
+                    match r {
+                        Poll::Ready(Ok(())) => "UOK".into(),
+                        Poll::Pending => "UPEND".into(),
+                        Poll::Ready(Err(_)) => "UERR".into(),
+                    }
+                }
+            },
+            "R" => match self.rh.as_mut() {
+                None => "-".into(),
+                Some(h) => {
+                    let n: usize = rest.parse().unwrap();
+                    let mut buf = vec![0u8; n];
+                    let mut rb = ReadBuf::new(&mut buf);
+                    match Pin::new(h).poll_read(&mut rcx, &mut rb) {
+                        Poll::Pending => "RPEND".into(),
+                        Poll::Ready(Ok(())) => {
+                            let f = rb.filled();
+                            if f.is_empty() {
+                                "REOF".into()
+                            } else {
+                                read = f.to_vec();
+                                if full_bytes {
+                                    format!("R{}:{}", f.len(), bytes_dot(f))
+                                } else {
+                                    format!("R{}:{}", f.len(), hash_bytes(f))
+                                }
+                            }
+                        }
+                        Poll::Ready(Err(e)) => {
+                            if e.to_string() == "dispatcher dead" {
+                                "RERRDEAD".into()
+                            } else {
+                                "RERRMSG".into()
+                            }
+                        }
+                    }
+                }
+            },
+            "D" => {
+                if rest == "R" {
+                    self.rh = None;
+                } else {
+                    self.wh = None;
+                }
+                "-".into()
+            }
+            _ => "BADOP".into(),
+        };
+        match res.as_str() {
+            "RPEND" if rest != "0" => self.rset.returned_pending(),
+            "WP" | "UPEND" => self.wset.returned_pending(),
+            _ => {}
+        }
+        OpResult { res, is_poll: false, read, wrote }
+    }
+
     /// Delivers a message to the connection's inbox (as the socket dispatcher would).
     pub fn deliver(&mut self, msg: v::UtpMessage) {
-        self.d.deliver(msg);
+        if let Some(d) = self.d.as_mut() { d.deliver(msg); }
     }
 
     /// The wake-ups fired since the last call: reader, writer, dispatcher.
-    pub fn wakes(&self) -> String {
+    pub fn wakes(&mut self) -> String {
         let mut wakes = String::new();
-        for _ in 0..self.rc.take().min(1) {
-            wakes.push('R');
-        }
-        for _ in 0..self.wc.take().min(1) {
-            wakes.push('W');
-        }
+        wakes.push_str(&self.rset.letters('R', 'r', true));
+        wakes.push_str(&self.wset.letters('W', 'w', true));
         for _ in 0..self.dc.take().min(1) {
             wakes.push('D');
         }
@@ -453,13 +567,13 @@ impl Endpoint {
     /// The observation token of one op, in the format of the `vsock` component.
     pub fn obs(&self, r: &OpResult, wakes: &str) -> (String, Vec<Vec<u8>>) {
         if r.is_poll {
-            let sent = self.d.take_sent();
+            let sent = self.drv().take_sent();
             let pk = if sent.is_empty() {
                 "-".to_string()
             } else {
                 sent.iter().map(|x| packet_str(x)).collect::<Vec<_>>().join(";")
             };
-            let snap = self.d.snapshot();
+            let snap = self.drv().snapshot();
             (
                 format!(
                     "P:{}/{}/{}/{}/{}",
@@ -467,18 +581,25 @@ impl Endpoint {
                     pk,
                     wakes,
                     opt_ns(snap.last_arm_in),
-                    fingerprint(&self.d)
+                    fingerprint(self.drv())
                 ),
                 sent,
             )
         } else {
-            (format!("{}/{}/{}", r.res, wakes, fingerprint(&self.d)), Vec::new())
+            match self.d.as_ref() {
+                Some(d) => (format!("{}/{}/{}", r.res, wakes, fingerprint(d)), Vec::new()),
+                None => {
+                    // the dropped task's own waker may fire while its parts are torn down: nobody is left to be woken
+                    let w: String = wakes.chars().filter(|c| *c != 'D').collect();
+                    (format!("{}/{}", r.res, if w.is_empty() { "-" } else { &w }), Vec::new())
+                }
+            }
         }
     }
 }
 
 pub fn dispatch(t: &[&str]) -> Option<String> {
-    if t[0] != "vsock" {
+    if t[0] != "vsock" && t[0] != "vdrop" {
         return None;
     }
     if t.len() < 18 {
@@ -523,7 +644,7 @@ fn run(t: &[&str]) -> String {
         Err(_) => return "BADCONFIG".into(),
     };
     let mut out: Vec<String> = Vec::new();
-    out.push(format!("I:-/-/{}", fingerprint(&e.d)));
+    out.push(format!("I:-/-/{}", fingerprint(e.drv())));
     for tok in &t[18..] {
         if e.finished {
             break;
